@@ -62,15 +62,9 @@ Definition check_transf (c : list float * msurf float * res (msurf float)) : boo
   let '(tr, s, expected) := c in res_eqb msurf_eqb (transformation FS tr s) expected.
 
 (* (e) parse_trcl_kw / parse_fill_kw *)
-Definition trcl_val_eqb (a b : trcl_val float) : bool :=
-  match a, b with
-  | TNum x, TNum y => fl_eqb x y
-  | TStr n, TStr m => Nat.eqb n m
-  | _, _ => false
-  end.
-Definition check_trcl (c : bool * list float * list (Z * list float) * Z * res (trcl_val float)) : bool :=
+Definition check_trcl (c : bool * list float * list (Z * list float) * Z * res (list float)) : bool :=
   let '(star, entries, trs, trid, expected) := c in
-  res_eqb trcl_val_eqb (parse_trcl FS star entries trs trid) expected.
+  res_eqb fl_eqb (parse_trcl FS star entries trs trid) expected.
 Definition check_fill (c : bool * list float * list (Z * list float) * Z * res (list float)) : bool :=
   let '(star, entries, trs, trid, expected) := c in
   res_eqb fl_eqb (parse_fill_tr FS star entries trs trid) expected.
